@@ -62,15 +62,27 @@ def build_shuffled(r, t, v, schema, explicit_defaults):
         if k == 'setof':
             r.shuffle(items)
         comps = [build_shuffled(r, b[1], ev, schema.componentType, explicit_defaults) for ev in items]
-        how = r.randrange(3)
+        how = r.randrange(5)
         if how == 0:
             for c in comps:
                 obj.append(c)
         elif how == 1:
             obj.extend(comps)
-        else:
+        elif how == 2:
             for i, c in enumerate(comps):
                 obj.setComponentByPosition(i, c)
+        else:
+            # positions assigned out of order (back to front, or shuffled): the same list in the end
+            order = list(range(len(comps)))
+            if how == 3:
+                order.reverse()
+            else:
+                r.shuffle(order)
+            for i in order:
+                if r.random() < 0.5:
+                    obj.setComponentByPosition(i, comps[i])
+                else:
+                    obj[i] = comps[i]
         return obj
     if k == 'choice':
         obj = schema.clone()
@@ -405,6 +417,12 @@ def history_pair(rep, drv, r, kind, length):
 # ----------------------------------------------------------------------------- corpus
 
 ROUTE_CORPUS = [
+    # a DEFAULT member whose default is a non-empty SEQUENCE OF / SET OF, the value equal to the default: built in any
+    # order of positions, the member is recognised as the default and left out
+    ('(seq (r int) (d (of (i 1) (i 2)) (seqof int)))', '(seq (i 5) (of (i 1) (i 2)))'),
+    ('(seq (r int) (d (of (i 1) (i 2) (i 3)) (seqof int)))', '(seq (i 5) (of (i 1) (i 2) (i 3)))'),
+    ('(seq (r int) (d (of (i 1) (i 2)) (seqof int)))', '(seq (i 5) (of (i 2) (i 1)))'),
+    ('(set (r bool) (d (of (s 61) (s 6262) (s 63)) (tag i c 1 (seqof (str 4)))))', '(seq (b 1) (of (s 61) (s 6262) (s 63)))'),
     # T4a (repaired): a read made an absent OPTIONAL record present; BER then differed by route
     ('(seq (r int) (o (seq (o int))))', '(seq (i 1) absent)'),
     # clone after a read touched an absent OPTIONAL SEQUENCE OF (repaired)
@@ -454,7 +472,7 @@ def run(rep, tier, seed):
     for ts, vs in ROUTE_CORPUS:
         t = sexp_types.ty_of_sexp(gen.parse_sexps(ts)[0])
         v = gen.val_of_sexp(gen.parse_sexps(vs)[0])
-        for k in range(4):
+        for k in range(8):
             rep.case('corpus routes %s %s #%d' % (ts, vs, k), nontrivial=True)
             routes_case(rep, drv, common.rng_for(seed, 'C04c', k), t, v)
     for head, ops_s in PAIR_CORPUS:
